@@ -15,6 +15,7 @@ import StamModel.Driver.Cc
 import StamModel.Driver.Tid
 import StamModel.Driver.Hs
 import StamModel.Driver.Sq
+import StamModel.Driver.Vo
 /-
   Line-protocol driver: one request per line on stdin, one answer per line on stdout.
   Built as the `stamdriver` executable (core Lean only).
@@ -42,6 +43,7 @@ def step (line : String) : String :=
   | "hs" :: args => hs args
   | "lim" :: args => lim args
   | "sq" :: args => sq args
+  | "vo" :: args => vo args
   | "sqspec" :: args => sqspec args
   | ["reset"] => "ok"
   | _ => "bad-op"
